@@ -94,7 +94,8 @@ type Plan struct {
 	// it again; Scribble n > 0: it overwrites that slice after every n-th call
 	Alias    bool `json:"alias,omitempty"`
 	InitDup  int  `json:"init_dup,omitempty"`
-	Big      bool `json:"big,omitempty"` // endpoint lists of up to 40 names
+	Big      bool `json:"big,omitempty"`  // endpoint lists of up to 40 names
+	Tick     bool `json:"tick,omitempty"` // the clock moves 1 ns with every reading
 	Scribble int  `json:"scribble,omitempty"`
 	Ops      []Op `json:"ops"`
 }
@@ -153,8 +154,9 @@ func Generate(r *rand.Rand, profile string, concurrent bool) *Plan {
 		p.DMs = ds[r.IntN(len(ds))]
 	}
 	if concurrent {
-		p.Strategy = r.IntN(4)
+		p.Strategy = r.IntN(6) // 0 random walk, 1-3 PCT depth, 4-5 one long stall
 	}
+	p.Tick = r.IntN(3) == 0
 	if !concurrent && r.IntN(3) == 0 {
 		p.Alias = true
 		p.Scribble = r.IntN(3) // 0 never
@@ -840,6 +842,9 @@ func (s *sim) run(src *simkit.Source, logOn bool) {
 	k.LogOn = logOn
 	k.OpYields = 2000
 	k.MaxSteps = 100000
+	if s.plan.Tick {
+		k.TickNs = 1
+	}
 	s.k = k
 	k.Install()
 	defer k.Uninstall()
@@ -1475,6 +1480,9 @@ func (Engine) Strategy(p simkit.Plan, r *rand.Rand) simkit.Strategy {
 	pl := p.(*Plan)
 	if !pl.Concurrent || pl.Strategy == 0 {
 		return &simkit.RandomWalk{R: simkit.NewSM64(r.Uint64()), Stick: 0.6, Mix: 0.6}
+	}
+	if pl.Strategy >= 4 {
+		return simkit.NewStall(simkit.NewSM64(r.Uint64()), 4+len(pl.Ops), 28, 0.7, 0.6)
 	}
 	return simkit.NewPCT(simkit.NewSM64(r.Uint64()), pl.Strategy, 40+len(pl.Ops)*8, 0.6)
 }
